@@ -73,6 +73,13 @@ def _gen_of(r):
     allow_far = r.random() < 0.25
     allow_resize = r.random() < 0.25
     allow_eq = r.random() < 0.3
+    if r.random() < 0.03 and elem['k'] in U.PRIMS:
+        # a long collection: the history starts from tens to a thousand members
+        big = r.choice([33, 130, 257, 1030])
+        pool = [_elem_value(r, elem) for _ in range(3)]
+        ops.append(['extend', [r.choice(pool) for _ in range(big)]])
+        mlen = big
+        n_ops = min(n_ops, 8)
     for _ in range(n_ops):
         x = r.random()
         if x < 0.45:
